@@ -77,7 +77,13 @@ def case_history(case):
         if run["instance"] == "new":
             cp = RG.new_csvpaths(policy=["collect"], csvpath_policy=["collect"])
         before = tree_hashes("archive")
-        caller, mobs, raised = RG.run_group(cp, run["group"], "food", run["method"])
+        abandon = bool(run.get("abandon")) and run["method"] in ("next_paths", "next_by_line")
+        if abandon:
+            # keep the abandoned generators of every instance alive for the whole history
+            res.setdefault("_gens", [])
+        caller, mobs, raised = RG.run_group(cp, run["group"], "food", run["method"], **({"take": 1} if abandon else {}))
+        if abandon:
+            res["_gens"].append(cp)
         if raised:
             res["oracle"].append({"what": f"run raised {raised}", "step": step})
             break
@@ -89,17 +95,24 @@ def case_history(case):
         new_files = [k for k in after if k not in before and k != "manifest.json"]
         tops = sorted(set(os.path.join(*k.split(os.sep)[:2]) for k in new_files))
         want_top_group = run["group"]
+        if abandon and len(tops) == 0:
+            # walked away before the run wrote anything: no directory to account for
+            model_req.append(None)
+            run_dirs.append(None)
+            continue
         if len(tops) != 1 or not tops[0].startswith(want_top_group + os.sep):
             res["oracle"].append({"what": "a run did not write under exactly one new directory of its own named-paths name",
                                   "step": step, "new_dirs": tops, "group": run["group"]})
             break
         dname = tops[0].split(os.sep)[1]
-        if (run["group"], dname) in [(g, d) for g, d, _ in run_dirs]:
+        if (run["group"], dname) in [(x[0], x[1]) for x in run_dirs if x]:
             res["oracle"].append({"what": "a run reused an earlier run's directory", "step": step, "dir": tops[0]})
         run_dirs.append((run["group"], dname, t))
         model_req.append({"group": run["group"], "ts": [t.year, t.month, t.day, t.hour, t.minute, t.second]})
         # chronological order by name, and :last / :first through the API
-        mine = [(d, tt) for g, d, tt in run_dirs if g == run["group"]]
+        mine = [(x[1], x[2]) for x in run_dirs if x and x[0] == run["group"]]
+        if abandon:
+            continue       # an abandoned run has no data.csv yet: :last/:first are asked after complete runs only
         secs = {}
         for d, tt in mine:
             secs.setdefault(tt, []).append(d)
@@ -125,11 +138,13 @@ def case_history(case):
             break
     # model: directory names and resolutions
     if not res["oracle"]:
-        m = driver.ask({"op": "rundirs", "runs": model_req, "prefix": ["2026-"]})
-        for k, mr in enumerate(m["runs"]):
+        kept = [k for k, q in enumerate(model_req) if q is not None]
+        m = driver.ask({"op": "rundirs", "runs": [model_req[k] for k in kept], "prefix": ["2026-"]})
+        for k, mr in zip(kept, m["runs"]):
             if mr is None or mr["dir"] != run_dirs[k][1]:
                 res["disagree"].append({"what": "run directory name", "step": k, "real": run_dirs[k][1], "model": mr})
     res["nontrivial"] = len(case["runs"]) >= 2
+    res.pop("_gens", None)
     return res
 
 
